@@ -74,7 +74,7 @@ var properties = map[string]*Property{
 		ID:    "C06",
 		Title: "Function calls and closures behave as in Go regardless of frame recycling",
 		Units: []Unit{
-			{Kind: "funcs", Pkg: "fast", Funcs: []string{"(*Env).freeEnv", "(*Env).MarkUsedByClosure", "newEnv", "NewEnv", "(*Env).FreeEnv", "(*Env).freeEnv4Func"}},
+			{Kind: "funcs", Pkg: "fast", Funcs: []string{"(*Env).freeEnv", "(*Env).MarkUsedByClosure", "newEnv", "NewEnv", "(*Env).FreeEnv", "(*Env).freeEnv4Func", "(*Var).Address"}},
 		},
 		NotCovered: []string{
 			"first sentence of the property (results of calls equal compiled Go): call*.go / func*ret*.go specialisations are not under contract",
